@@ -84,6 +84,13 @@ def token_lines(tok, i, st):
         sh = shebangs_of(_f)
         # a body line that merely looks like a first-line declaration (only the very first line of a file is one)
         return [f"{sh[-1]} body_line_{i}" if sh else f"shebangless_body_{i} = {i}"]
+    if tok in "UQ":
+        # U: a one-line header; Q: a code line that quotes exactly that header text in a string
+        one = f"{single} SPDX-FileCopyrightText: 2009 OldU" if single else f"{multi[0]} SPDX-FileCopyrightText: 2009 OldU {multi[2].strip()}"
+        return [one] if tok == "U" else [f'emit_{i}("{one}")']
+    if tok == "G":
+        # one code line longer than the 4096-byte window the tool uses elsewhere
+        return [f"long_{i} = '" + "x" * 5000 + "'"]
     if tok == "X":
         mid = f"{multi[1]} SPDX-License-Identifier: ISC".strip() if multi[1] else "SPDX-License-Identifier: ISC"
         return [multi[0], (" " if multi[1] else "") + mid, f"{multi[2]} after_terminator_{i} = {i}", f"later_{i} = {i} {multi[0]} c {multi[2].strip()}"]
@@ -103,14 +110,14 @@ def split_by_construction(seq, st, prefix_lines, replace):
     single = st[2]
     chunks = [(t, token_lines(t, i, st)) for i, t in enumerate(seq)]
     P = list(prefix_lines)
-    hs = [i for i, t in enumerate(seq) if t in "HT"]
+    hs = [i for i, t in enumerate(seq) if t in "HTU"]
     if not replace or not hs:
         return P, [], [l for _t, ls in chunks for l in ls], (0, -1)
     hi = hs[0]
     lo, up = hi, hi
     if single:
         # a shebang-like body line that starts with the single-line marker ('#!' in '#' styles) is itself a comment line
-        run = "OHT" + ("S" if chunks and any(t == "S" and ls[0].startswith(single) for t, ls in chunks) else "")
+        run = "OHTU" + ("S" if chunks and any(t == "S" and ls[0].startswith(single) for t, ls in chunks) else "")
         while lo > 0 and seq[lo - 1] in run:
             lo -= 1
         while up + 1 < len(seq) and seq[up + 1] in run:
@@ -123,7 +130,7 @@ def split_by_construction(seq, st, prefix_lines, replace):
 
 
 def bounds(tier, seed):
-    return {"tokens": list(TOKENS) + ["X (multi-line-only styles)"], "max_len": {"python,c": 3 if tier == "quick" else 4, "other styles": 2 if tier == "quick" else 3},
+    return {"tokens": list(TOKENS) + ["X (multi-line-only styles)", "G (5000-character line), U (one-line header), Q (code line quoting U's text): 16 fixed sequences per style"], "max_len": {"python,c": 3 if tier == "quick" else 4, "other styles": 2 if tier == "quick" else 3},
             "styles": list(all_styles(tier)), "prefixes": ["none", "BOM", "shebang (styles that define one)", "BOM+shebang"],
             "line_endings": ["LF", "CRLF", "CR"], "final_newline": [True, False], "modes": ["replace", "--no-replace"],
             "seed_slice": "sequences of the next length starting with TOKENS[seed % 10] for python" if tier == "quick" else None}
@@ -142,6 +149,13 @@ def cases(tier, seed):
         n = deep if name in ("python", "c") else shallow
         for s in seqs(n, TOKENS + XTOKEN if name in X_STYLES else TOKENS):
             for prefix in ("none", "bom", "shebang", "bom+shebang", "two-shebangs"):
+                for ending in ("\n", "\r\n", "\r"):
+                    for final in (True, False):
+                        for replace in (True, False):
+                            yield {"style": name, "seq": s, "prefix": prefix, "ending": ending, "final": final, "replace": replace}
+    for name in all_styles(tier):
+        for s in ("G", "GH", "HG", "GC", "CG", "OGH", "GBH", "U", "QU", "QCU", "QBU", "CQU", "QUC", "UQ", "QQU", "QOU"):
+            for prefix in ("none", "bom", "shebang"):
                 for ending in ("\n", "\r\n", "\r"):
                     for final in (True, False):
                         for replace in (True, False):
@@ -286,7 +300,7 @@ def evaluate(c) -> R:
                 if t not in middle:
                     r.violation(f"new-tag-outside-header|{sig}", f"{label}: {t!r} not inside the header block; new file {new_n!r}")
             for i, tok in enumerate(seq):
-                if tok in "CIFSX" and not (h_lo <= i <= h_up):
+                if tok in "CIFSXGQ" and not (h_lo <= i <= h_up):
                     body = token_lines(tok, i, st)[-1 if tok == "X" else 0].strip()
                     if body in middle or (tok == "X" and f"after_terminator_{i} = {i}" in middle):
                         r.violation(f"body-line-inside-header|{sig}", f"{label}: body line {body!r} ended up inside the header block {middle!r}")
@@ -302,7 +316,7 @@ def evaluate(c) -> R:
                     break
             if H and c["replace"]:
                 for i, tok in enumerate(seq):
-                    if tok in "HT" and i == min(j for j, t in enumerate(seq) if t in "HT") and f"Old{i}" not in middle:
+                    if tok in "HTU" and i == min(j for j, t in enumerate(seq) if t in "HTU") and (f"Old{i}" if tok != "U" else "OldU") not in middle:
                         r.violation(f"old-info-lost|{sig}", f"{label}: information of the replaced header (Old{i}) is gone: {new_n!r}")
     r.outcome = "exit0"
     r.nontrivial = len(seq) >= 1
